@@ -25,6 +25,7 @@ class Builder:
         self.ops = []
         self.k = 0
         self.arpack_fail = False  # this run is about an ARPACK call that does not converge
+        self.linalg_fail = False  # ... about a dense LAPACK-backed call that does not converge
 
     def add(self, recipe, role, storage=None):
         name = f"a{self.k}"
@@ -91,6 +92,12 @@ class Builder:
                 # slow steps: tqdm's (simulated) redraw timer elapses at every step
                 e["stderr"]["step_dt"] = rng.choice([0.06, 0.25, 0.25, 5.0])
                 e["stderr"]["at"] = rng.randint(1, 8)
+        if "interrupt" in allow and not self.arpack_fail and (self.linalg_fail or rng.random() < 0.12):
+            # a dense LAPACK-backed routine called by skmatter does not converge (LinAlgError):
+            # the operation fails with it, or a fallback path of the library takes over
+            e["linalg"] = {"fail_at": rng.choice([1, 1, 2, 2, 3, 4])}
+            allow = [a for a in allow if a != "interrupt"]
+            e.pop("stderr", None)
         if "interrupt" in allow and rng.random() < 0.5:
             e["interrupt"] = {"exc": rng.choice(["KeyboardInterrupt", "MemoryError"]), "frac": round(rng.uniform(0.02, 0.98), 3)}
             if rng.random() < 0.12:
@@ -248,6 +255,8 @@ def subj_pcovr(b, kind, pattern):
         p["random_state"] = rng.randrange(1000) if (pattern == "repeat" or rng.random() < 0.6) else None
     if rng.random() < 0.4:
         p["space"] = rng.choice(["feature", "sample"])
+    if b.linalg_fail and rng.random() < 0.7:
+        p["space"] = "feature"  # the route with a LinAlgError fallback (lstsq -> matrix square root)
     r = rng.random()
     if r < 0.3:
         p["regressor"] = {"$est": ["Ridge", {"alpha": 10 ** rng.uniform(-8, -2), "fit_intercept": False, "tol": 1e-12}]}
@@ -854,6 +863,13 @@ def gen_c09(rng, idx, tier, faults):
             # fresh state
             kind = rng.choice(["PCovR", "PCovR", "KernelPCovR", "KernelPCovR", "feature.PCovCUR", "sample.PCovCUR", "feature.CUR", "sample.CUR"])
             b.arpack_fail = True
+            r2 = 0.7  # pattern "fault"
+        elif faults and rng.random() < 0.04:
+            # a dense LAPACK-backed call made by the library does not converge (LinAlgError):
+            # either the operation fails with it or a documented fallback takes over - whose
+            # result is then held to the same comparisons as any other successful fit
+            kind = rng.choice(["PCovR", "PCovR", "PCovR", "KernelPCovR", "OrthogonalRegression", "Ridge2FoldCV", "SparseKernelCenterer"])
+            b.linalg_fail = True
             r2 = 0.7  # pattern "fault"
         if faults:
             pattern = "refit" if r2 < 0.35 else "repeat" if r2 < 0.55 else "fault" if r2 < 0.8 else "interleave" if r2 < 0.9 else "single"
